@@ -503,10 +503,13 @@ class LiveWorld:
         for c in self.clients:
             c.account_details = None
         self.executor = ControlledExecutor()
+        self.on_sleep = None  # one-shot callable(seconds): main-loop work done while a paper-trading call sleeps its latency
         self.fw.betfair_execution._thread_pool = self.executor
         if paper:
             # paper trading: the simulated execution runs its calls on its pool after sleeping the latency
             import flumine.execution.simulatedexecution as _se
+
+            world = self
 
             class _NoSleep:
                 def __getattr__(s, k):
@@ -514,6 +517,10 @@ class LiveWorld:
 
                 @staticmethod
                 def sleep(x):
+                    # the pool thread waits out the latency here: whatever the main loop does meanwhile is done by `on_sleep`
+                    hook, world.on_sleep = world.on_sleep, None
+                    if hook is not None:
+                        hook(x)
                     return None
 
             _se.time = _NoSleep()
